@@ -32,6 +32,8 @@ CLAIMED = {
          "all candidate entries x 3 collision modes x 2 reporting modes on every tier; live insert/delete histories compared step by step by TLC."),
  "C13": ("spec/MC_Tier.tla action properties CopyOpsPure/FailedMutatorNoChange/ArgNeverChanges + TierProp.CopyOpClauses/MutatorClauses", "5 (C13)",
          "every recorded call carries before/after snapshots of receiver and argument (taken on the exception path too); TLC checks the C13 clauses on every event."),
+ "C12": ("spec/MC_Tg.tla + spec/TgImpl.tla + spec/TgProp.tla + spec/Trace_Tg.tla", "5 (C12)",
+         "TLC explores every addTier/removeTier/renameTier/replaceTier history over 4 names, <= 5 slots, indices -2..len+2 and None to depth 5 against the list model (NamesUnique, SpanCovers, SpanNeverShrinks, NoFail); every transition of a reduced universe and of the tier-wise edits on all two-tier textgrids is replayed on real Textgrid objects and judged by TLC; tier-wise equality is judged against the real tier method applied to each tier."),
  "C14": ("spec/MC_Tier.tla (DoDejitter, DoMorph) + TierProp.DejitterClauses/MorphClauses", "5 (C14)",
          "all (tier, reference) pairs x maxDifference, all equal-count pairs x label filters; ties at exactly maxDifference are strict under exact (dyadic) arithmetic."),
 }
